@@ -4,6 +4,7 @@
 mod cachegen;
 mod cachesuite;
 mod comp;
+mod monitors;
 mod rng;
 mod sched;
 mod trace;
@@ -40,6 +41,7 @@ fn main() {
         "tlfu" => comp::suite_tlfu(&mut rng, cases, &mut t, &mut ex),
         "policy" => comp::suite_policy(&mut rng, cases, &mut t, &mut ex),
         "bloomfp" => extra = comp::suite_bloomfp(&mut rng, cases, &mut t),
+        "keys" => extra = comp::suite_keys(&mut rng, cases, &mut t),
         "replay" => {
             let f = arg(&args, "--in").expect("--in FILE");
             let txt = std::fs::read_to_string(f).unwrap_or_default();
